@@ -164,6 +164,45 @@ def run_conv(rec, case):
                 ts = sim.app_seq(calls)
                 w.run_until(lambda: ts.done, 60)
                 steps.append('down%d' % n)
+            elif k < 0.80:
+                # ONE mutable object sent twice, changed in place in between
+                # (the second message is what the object is at that moment)
+                import copy
+                rec.count('same_object_sent_twice')
+                if rng.random() < 0.5:
+                    nd += 1
+                    obj = {'id': 'D%d' % nd, 'v': [nd]}
+                    down.append(('D%d' % nd, copy.deepcopy(obj)))
+                    t1 = sim.app_call('send', sid, obj)
+                    first = 'D%d' % nd
+                    # (the object is changed only after the first message has
+                    # arrived: until a packet is written the package holds the
+                    # caller's object, as documented for Packet.encode)
+                    w.run_until(lambda: any(
+                        e['ev'] == 'message' and id_of(e['data']) == first
+                        for e in c.events), 60)
+                    nd += 1
+                    obj['id'] = 'D%d' % nd
+                    obj['v'].append(nd)
+                    down.append(('D%d' % nd, copy.deepcopy(obj)))
+                    t2 = sim.app_call('send', sid, obj)
+                    w.run_until(lambda: t2.done, 60)
+                else:
+                    nu += 1
+                    obj = {'id': 'U%d' % nu, 'v': [nu]}
+                    up.append(('U%d' % nu, copy.deepcopy(obj)))
+                    r1 = c.call('send', obj)
+                    first = 'U%d' % nu
+                    w.run_until(lambda: any(
+                        e['ev'] == 'message' and id_of(e['data']) == first
+                        for e in sim.events), 60)
+                    nu += 1
+                    obj['id'] = 'U%d' % nu
+                    obj['v'].append(nu)
+                    up.append(('U%d' % nu, copy.deepcopy(obj)))
+                    r2 = c.call('send', obj)
+                    w.run_until(lambda: r2['done'], 60)
+                steps.append('mut')
             elif k < 0.88 and not idle_done:
                 idle_done = True
                 w.quiesce()
